@@ -74,15 +74,25 @@ def gen_case(rng):
                          ",".join(r.sample(docgen.COLOURS, 3)))
             feats.add("for")
             feats.add("random")
-        if r.random() < 0.1 and i > 0:
-            parts.append('  <reuse href="#p%d" x="%d" y="%d"/>' % (r.randint(0, i), r.randint(0, 30), r.randint(0, 30)))
+        if r.random() < 0.25 and i > 0:
+            # instances carrying several attributes that are copied / merged onto the target (the order they are written in must not vary)
+            extra = r.sample([' transform="rotate(%d)"' % r.randint(1, 90), ' style="fill:red"', ' class="tb d-thick"', ' fill="none"', ' data-k="v"',
+                              ' stroke="blue"', ' opacity="0.5"', ' text="r"', ' x="%d" y="%d"' % (r.randint(0, 30), r.randint(0, 30))], r.randint(0, 5))
+            parts.append('  <%s href="#p%d"%s/>' % (r.choice(["reuse", "reuse", "use"]), r.randint(0, i), "".join(extra)))
+            feats.add("reuse-attrs")
+        if r.random() < 0.1:
+            extra = r.sample([' transform="translate(%d)"' % r.randint(1, 9), ' style="stroke:red"', ' class="g1"', ' fill="none"', ' data-a="1"', ' data-b="2"', ' v="3"'], r.randint(1, 5))
+            parts.append('  <g%s><rect xy="^|v 1" wh="2" text="$v"/></g>' % "".join(extra))
+        if r.random() < 0.08:
+            parts.append('  <defaults><rect style="a:b" text-style="c:d" transform="scale(1)" class="dd" fill="x"/></defaults>')
+            feats.add("defaults")
     text = "<svg>\n" + "\n".join(parts) + "\n</svg>\n"
     cfg = docgen.gen_cfg(rng) or {}
     if r.random() < 0.4:
         cfg["seed"] = r.choice([0, 1, 7, 4242, 2 ** 63])
     ncls = len(set(re.findall(r"d-[a-z-]+(?:-\d+)?", text)))
     nerr = text.count("#nope") + text.count("{{1/}}")
-    nontrivial = ncls >= 2 or "random" in feats or nerr >= 2
+    nontrivial = ncls >= 2 or "random" in feats or nerr >= 2 or "reuse-attrs" in feats
     return text, (cfg or None), sorted(feats), nontrivial
 
 
@@ -184,7 +194,7 @@ def run_shard(ctx):
     rng = ctx.rng("docs")
     workers = [ctx.worker, core.Worker(), core.Worker()]
     try:
-        n = 2000 if ctx.quick() else 60000
+        n = 4000 if ctx.quick() else 80000
         batch = []
         for j in range(n):
             if ctx.out_of_time():
